@@ -170,6 +170,15 @@ prop("C03", True,
      "inter-procedural shared-memory (escape/ownership) taint with sink rules + role/provenance rule over go/ssa and the VTA call graph",
      "DESIGN.md §2 C03")
 
+prop("C04", True,
+     "Static necessary-condition checks, for all inputs and segmentations, of the capture mechanisms the property's why_tests_cant names: (R1) no buffering reader over the handler's connection is built inside a request loop (pipelined services), "
+     "(R2) no direct conn.Read beside a buffered reader, (R3) no type assertion of the handler's connection to a concrete type that no in-repo caller passes (set computed from the call sites of Servicer.Handle: timeout wrapper, event.Conn) – such a branch is dead and its "
+     "requests/datagrams are never decoded, (R4) every completed iteration of the redis/memcached/telnet request loops emits the command's event and the ftp/smtp line hooks hand each line to the event pump exactly once, (R5) on stream services the count returned by Read on the "
+     "connection is not discarded. THE CORE (equal event lists for every cut of the byte stream) IS A RUN-TIME PROPERTY AND IS NOT DECIDED; this check only rules out the structural ways of losing bytes/requests.",
+     "In-repo call sites of Handle (server dispatcher, https) are the only callers; conn-derivation is an intra-procedural taint followed into same-package callees.",
+     "structural lints over go/ssa: loop membership of constructor calls, dead-type-assertion via call-site type sets, must-pass event emission, discarded Read counts",
+     "DESIGN.md §2 C04")
+
 PENDING = {
  "C01": "check not built yet in this revision (design: DESIGN.md §2 C01)",
 }
